@@ -198,7 +198,11 @@ def main(check_module, argv=None):
     tier = "thorough" if tier == "thorough" else "quick"
     seed = core.SEED
     t0 = time.time()
-    loader.load()
+    try:
+        loader.load()
+    except BaseException as e:
+        print("%s %s: cannot import /repo/src/spake2 (%s: %s) -> inconclusive" % (pid, tier, type(e).__name__, e))
+        return 2
     specs = []
     for (fname, kwargs) in mod.jobs(tier):
         kw = dict(kwargs)
